@@ -94,7 +94,8 @@ def check_descent(P, ctx):
 def check_mirror(P, ctx):
     rule = 'C03.mirror'
     swap = {'Tree_Left': 'Tree_Right', 'Tree_Right': 'Tree_Left'}
-    pairs = [('Tree_Rotate_Left', 'Tree_Rotate_Right'), (P.slot('Tree', 'Iter', 'iter_next'), P.slot('Tree', 'Iter', 'iter_prev')),
+    # the rotations are no longer compared textually: they are interpreted by the shape analysis wherever a fix-up uses them
+    pairs = [(P.slot('Tree', 'Iter', 'iter_next'), P.slot('Tree', 'Iter', 'iter_prev')),
              (P.slot('Tree', 'Iter', 'iter_init'), P.slot('Tree', 'Iter', 'iter_last'))]
     for a, b in pairs:
         fa, fb = P.fn(a), P.fn(b)
@@ -102,7 +103,7 @@ def check_mirror(P, ctx):
         ctx.fn(fb)
         d = mirror.first_difference(mirror.canon_body(fa, swap), mirror.canon_body(fb, {}))
         ctx.check(d is None, rule, '%s<->%s' % (a, b), site(fb), 'the two functions are mirror images of each other under Left<->Right', ['first difference: %s' % d] if d else None)
-    ctx.floor(rule, 3)
+    ctx.floor(rule, 2)
 
 
 def check_links(P, ctx):
@@ -347,7 +348,7 @@ def check_colour_transfer(P, ctx):
                           'the colour handed to `%s` is the colour `%s` had before this step; here that node is recoloured first, so the value transferred is a constant '
                           '(black heights of the two subtrees then differ whenever it was red)' % (ir.fmt(N.canon(c[2][1])), ir.fmt(b)),
                           ['recoloured at %s' % g.describe(bad), 'then transferred at %s' % g.describe(n)] if bad else None)
-    ctx.floor(rule, 2)
+    ctx.floor(rule, 1)
 
 
 def check_assign_rebuilds(P, ctx, T, clear, insert, rule):
@@ -417,6 +418,47 @@ def check_rb_invariant(P, ctx):
     ctx.floor(rule, 6)
 
 
+def check_rb_operations(P, ctx):
+    """SHAPE: insertion and removal as a whole.  From `m->root` = an arbitrary node of a valid red-black tree (or NULL) every path of
+    Tree_Set / Tree_Rem either raises with the tree untouched or leaves a valid tree: the new node is linked (both directions), red,
+    and handed to the fix-up in the state its loop invariant needs; the node to unlink has at most one child, carries the colour of the
+    child that replaces it when the fix-up is entered, is replaced and released exactly once, and the root ends black.  The two fix-up
+    loops and Tree_Maximum are used through the contracts C03.rb-invariant / the maximum contract establish."""
+    from . import rbshape
+    rule = 'C03.rb-operations'
+
+    def det(vs):
+        if not vs:
+            return None
+        v = vs[0]
+        return (['%d abstract states fail; first:' % len(vs), 'start: %s, %s' % (v['pre'], v['h'])]
+                + ['  focus  ' + x for x in v['focus']] + ['statement lines taken: %s' % v['lines'], 'violated (%s): %s' % (v['exit'], v['what'])])
+    for fname, what in (('Tree_Set', 'insertion'), ('Tree_Rem', 'removal')):
+        fn = P.fn(fname)
+        ctx.fn(fn)
+        res = rbshape.explore_op(P, fname)
+        ctx.stats['paths'] += res['returns'] + res['loopbacks'] + res['raises']
+        if res['unsupported']:
+            ctx.undecided(rule, fname + ':evaluable', site(fn), '%s leaves the fragment the shape interpreter evaluates: %s' % (what, res['unsupported'][0]))
+            continue
+        vs = res['violations']
+        ln = None
+        if vs:
+            ln = vs[0]['line'] or (vs[0]['lines'][-1] if vs[0]['lines'] else None)
+        ctx.check(not vs and res['returns'] > 0, rule, fname + ':leaves-valid-tree', site(fn, ln),
+                  'from any valid red-black tree, every path of the %s raises with the tree untouched or leaves a valid red-black tree '
+                  '(%d returning, %d raising, %d descending abstract paths)' % (what, res['returns'], res['raises'], res['loopbacks']), det(vs))
+    fn = P.fn('Tree_Maximum')
+    ctx.fn(fn)
+    res = rbshape.explore_maximum(P)
+    if res['unsupported']:
+        ctx.undecided(rule, 'Tree_Maximum:evaluable', site(fn), 'outside the evaluated fragment: ' + res['unsupported'][0])
+    else:
+        ctx.check(not res['violations'] and res['returns'] > 0, rule, 'Tree_Maximum:contract', site(fn),
+                  'the predecessor search returns a node on the right spine of its argument that has no right child, and writes nothing', det(res['violations']))
+    ctx.floor(rule, 3)
+
+
 def run(ctx, load):
     P = load(UNITS, 'default')
     ctx.stats['units'] = set(UNITS)
@@ -429,6 +471,7 @@ def run(ctx, load):
     check_colour_transfer(P, ctx)
     check_assign_rebuilds(P, ctx, 'Tree', 'Tree_Clear', 'Tree_Set', 'C03.assign-rebuilds')
     check_rb_invariant(P, ctx)
+    check_rb_operations(P, ctx)
     if ctx.tier == 'thorough':
         Pc = load(UNITS, 'ndebug')
         ctx.stats['configs'].append('ndebug')
